@@ -92,7 +92,8 @@ type Expr struct {
 	Name string  // ident/call name, selector field, literal text
 	Args []*Expr // operands
 	Vars []BoundVar
-	Trig []*Expr
+	Trig []*Expr   // all trigger terms (flattened, for dependency scans)
+	Trigs [][]*Expr // alternative patterns: each {...} group is one multi-pattern
 }
 
 type BoundVar struct {
@@ -425,16 +426,19 @@ func (ps *parser) parsePrimary() (*Expr, error) {
 			}
 			for ps.isOp("{") {
 				ps.next()
+				var group []*Expr
 				for {
 					tr, err := ps.parseIff()
 					if err != nil {
 						return nil, err
 					}
 					q.Trig = append(q.Trig, tr)
+					group = append(group, tr)
 					if !ps.accept(",") {
 						break
 					}
 				}
+				q.Trigs = append(q.Trigs, group)
 				if err := ps.expect("}"); err != nil {
 					return nil, err
 				}
